@@ -187,6 +187,8 @@ def run_model(mod, cases, impl_obs, scratch, per_file=None):
     files = []
     groups = {}
     for i, c in enumerate(cases):
+        if c.get('nomodel'):
+            continue
         groups.setdefault(mod.coq_runner(c), []).append(i)
     for runner, idxs in groups.items():
         for k in range(0, len(idxs), per_file):
